@@ -123,6 +123,10 @@ def handle (op : String) (args : List String) : Option String :=
   | "normexp", [e] => do
     let e ← decode e
     pure (encode (Martian.FormatExp.norm e))
+  | "wfexp", [e] => do
+    -- the hypothesis of the round-trip theorems; is it a val_exp (not a reference)?
+    let e ← decode e
+    pure ("wf=" ++ boolStr (Martian.FormatExp.wf e) ++ " val=" ++ boolStr (Martian.FormatExp.isVal e))
   | "lexexp", [s] => do
     let b ← bytesOfHex s
     match Martian.FormatExp.lexAll b with
